@@ -10,7 +10,7 @@ import (
 )
 
 // CrashHandlers lets a check (C04) turn a crashed worker into a verdict.
-var CrashHandlers = map[string]func(crashed []string) int{}
+var CrashHandlers = map[string]func(verifDir string, crashed []CrashInfo) int{}
 
 // plan gives, per space, the maximal number of tokens in the quick and the
 // thorough tier for the "tree" family of checks (C02, C03, C05, C13 and
